@@ -14,6 +14,8 @@ LABELS = {
     "str": lambda i: ["", "b", "a10", "a9", "Z", "a", "z1", "B"][i],           # "" is falsy; sorted order != id order
     "tuple": lambda i: [(), (1,), (0, 1), (0,), (2,), (1, 0), (0, 0), (3,)][i],   # () is falsy
     "float": lambda i: [0.0, -1.5, 2.0, 0.5, 0.001, -0.25, 7.5, 1e3][i],          # 0.0 is falsy
+    # signed ints: set({0, -1, 1}) iterates as 0, 1, -1 (hash(-1) == -2): neither sorted nor id order
+    "signed": lambda i: [0, -1, 1, 2, -2, 3, -3, 4][i],
 }
 
 
@@ -279,7 +281,12 @@ def one(case, pl):
     for name in case.get("qmdp_solvers", ["vi", "pi"]):
         def run_q():
             # "pi" = QMDP() with its default solver (mdp_solver=None)
-            planner = QMDP(mdp_solver=ValueIteration(max_residual=1e-10)) if name == "vi" else QMDP()
+            # "vi_dict": the shipped dictionary value iteration builds its table with StateActionTable.from_dict
+            # (action axis in set-iteration order); "pi_params": PolicyIteration with non-default parameters
+            planner = {"vi": lambda: QMDP(mdp_solver=ValueIteration(max_residual=1e-10)),
+                       "vi_dict": lambda: QMDP(mdp_solver=ValueIteration(max_residual=1e-10, _version="dict")),
+                       "pi_params": lambda: QMDP(mdp_solver=PolicyIteration(max_iterations=500, undefined_value=-3.0)),
+                       "pi": lambda: QMDP()}[name]()
             if warm is not None and mode != "stale":
                 on_warm(planner)
             r = planner.plan_on(pomdp)
